@@ -201,3 +201,25 @@ fn c07_file_header_encode() {
     core::mem::forget(out);
     core::mem::forget(o);
 }
+
+/// An ontology without terms and annotations serialises to the 8-byte header followed by the five
+/// sections (terms, parents, genes, OMIM, ORPHA), each present with its u32 length prefix 0.
+#[kani::proof]
+#[kani::stub(std::hash::RandomState::new, stub_random_state)]
+#[kani::unwind(22)]
+fn c07_empty_ontology_has_five_sections() {
+    let mut o = empty_ontology_cap(2, 1);
+    let y: u16 = kani::any();
+    o.hpo_version = (y, 1, 31);
+    let out = o.as_bytes();
+    assert!(out.len() == 8 + 5 * 4, "header + five empty sections, each with its length prefix");
+    let mut i = 8;
+    while i < 28 {
+        assert!(out[i] == 0);
+        i += 1;
+    }
+    assert!(out[3] == 3 && out[4] == (y >> 8) as u8 && out[5] == y as u8);
+    kani::cover!(y == 2023, "release year 2023");
+    core::mem::forget(out);
+    core::mem::forget(o);
+}
